@@ -106,11 +106,16 @@ impl RelationToQueryTranslator for MsSqlTranslator {
         }
     }
     fn substr(&self, exprs: Vec<ast::Expr>) -> ast::Expr {
-        assert!(exprs.len() == 3);
+        assert!(exprs.len() == 2);
+        // T-SQL has no two-argument SUBSTRING: the length of the text itself is always enough
         ast::Expr::Substring {
             expr: Box::new(exprs[0].clone()),
             substring_from: Some(Box::new(exprs[1].clone())),
-            substring_for: Some(Box::new(exprs[2].clone())),
+            substring_for: Some(Box::new(function_builder(
+                "LEN",
+                vec![exprs[0].clone()],
+                false,
+            ))),
             special: true,
         }
     }
